@@ -465,6 +465,27 @@ def run(ctx):
             op = ctx.rng.choice(ops)
             p = random_vector(ctx.rng, catalogue, op)
             chk.run_vector(op, p, None, 1, 300 + i, record=events)
+        # the exception-in-image handlers: every combination of the parameters they read (format, transparent, bgcolor, size),
+        # for several kinds of failing request
+        dom = catalogue['wms_mapx']
+        base = {k: v[0] for k, v in dom.items()}
+        nim = 0
+        for exc in ('inimage', 'blank'):
+            for fmt in [c for c in dom['format'] if c in ('png', 'jpeg', 'gif', 'dup', 'absent')]:
+                for tr in [c for c in dom.get('transparent', ['absent']) if c in ('absent', 'true', 'false')]:
+                    for bg in [c for c in dom.get('bgcolor', ['absent']) if c in ('absent', 'valid')]:
+                        for fail in ({'layers': 'empty'}, {'bbox': 'inverted'}, {'srs': 'unconfigured'}):
+                            if any(v not in dom.get(k, ()) for k, v in fail.items()):
+                                continue
+                            p = dict(base, exceptions=exc, format=fmt, **fail)
+                            if 'transparent' in dom:
+                                p['transparent'] = tr
+                            if 'bgcolor' in dom:
+                                p['bgcolor'] = bg
+                            chk.run_vector('wms_mapx', p, None, 1, 70000 + nim, record=events)
+                            nim += 1
+        if nim < 20:
+            raise tlc.MachineryError('only %d in-image exception vectors' % nim)
         results, rejected, obsbad = validate_traces(ctx, events)
         ctx.cov['traces_validated_against_impl'] += len(events)
         for rt in results:
